@@ -1616,7 +1616,7 @@ def select__fold_left(self: XPathFunction, context: ta.ContextType = None) \
     if func.arity != 2:
         raise self.error('XPTY0004', "function arity must be 2")
 
-    zero = self.get_argument(context, index=1)
+    zero = self[1].evaluate(copy(context))  # $zero is item()*: any sequence, also empty
 
     result = zero
     for item in self[0].select(context):
@@ -1641,7 +1641,7 @@ def select__fold_right(self: XPathFunction, context: ta.ContextType = None) \
     if func.arity != 2:
         raise self.error('XPTY0004', "function arity must be 2")
 
-    zero = self.get_argument(context, index=1)
+    zero = self[1].evaluate(copy(context))  # $zero is item()*: any sequence, also empty
 
     result = zero
     sequence = [x for x in self[0].select(context)]
